@@ -80,7 +80,7 @@ def run_vac(case, mon):
     for k in range(case['ninputs']):
         sigma = float(rng.choice([0.3, 0.7, 1.5]))
         args = work_vac.rand_args(rng, diff, 'VSB012', sigma)
-        variant = ('default', 'small', 'large', 'bigom2', 'bigom2-one')[int(rng.integers(5))] if k > 0 else ('bigom2', 'bigom2-one')[case['idx'] % 2]
+        variant = ('default', 'small', 'large', 'bigom2', 'bigom2-one')[int(rng.integers(5))] if k > 1 else ('bigom2', 'bigom2-one')[k]
         kw = {}
         if variant == 'small': kw = {'large_om2': np.inf}
         if variant == 'large': kw = {'large_om2': 0.}
